@@ -436,6 +436,10 @@ is_trivially_copyable() const {
  */
 bool CPPStructType::
 is_constructible(const CPPType *given_type) const {
+  if (is_abstract()) {
+    return false;
+  }
+
   // Does the type match the copy constructor or move constructor?
   CPPType *base_type = ((CPPType *)given_type)->remove_reference();
   if (is_equivalent(*base_type->remove_cv())) {
@@ -446,10 +450,6 @@ is_constructible(const CPPType *given_type) const {
     } else {
       return is_copy_constructible(V_public);
     }
-  }
-
-  if (is_abstract()) {
-    return false;
   }
 
   // Check for a different constructor.
@@ -494,6 +494,9 @@ is_constructible(const CPPType *given_type) const {
  */
 bool CPPStructType::
 is_default_constructible() const {
+  if (is_abstract()) {
+    return false;
+  }
   return is_default_constructible(V_public);
 }
 
@@ -502,6 +505,9 @@ is_default_constructible() const {
  */
 bool CPPStructType::
 is_copy_constructible() const {
+  if (is_abstract()) {
+    return false;
+  }
   return is_copy_constructible(V_public);
 }
 
@@ -525,14 +531,12 @@ is_destructible() const {
 }
 
 /**
- * Returns true if the type is default-constructible.
+ * Returns true if a default constructor of at least the given visibility is
+ * available.  This does not consider whether the class is abstract, since an
+ * abstract class can still be constructed as a base class sub-object.
  */
 bool CPPStructType::
 is_default_constructible(CPPVisibility min_vis) const {
-  if (is_abstract()) {
-    return false;
-  }
-
   CPPInstance *constructor = get_default_constructor();
   if (constructor != nullptr) {
     // It has a default constructor.
@@ -591,14 +595,12 @@ is_default_constructible(CPPVisibility min_vis) const {
 }
 
 /**
- * Returns true if the type is copy-constructible.
+ * Returns true if a copy constructor of at least the given visibility is
+ * available.  This does not consider whether the class is abstract, since an
+ * abstract class can still be copied as a base class sub-object.
  */
 bool CPPStructType::
 is_copy_constructible(CPPVisibility min_vis) const {
-  if (is_abstract()) {
-    return false;
-  }
-
   CPPInstance *constructor = get_copy_constructor();
   if (constructor != nullptr) {
     // It has a copy constructor.
